@@ -455,12 +455,13 @@ class ExternalVariableCollector(NodeVisitor):
             self.provenance.setdefault(node.id, "body")
             self.assigned.add(node.id)
 
-    def visit_comprehension(self, node):
+    def visit_comprehension(self, node, iter_visited=False):
         # The variables of a comprehension are its own: only what it reads
         # (and what assignment expressions inside it set) belongs to the
         # function
         own = SimpleVariableCollector(node.target).vars
-        self.visit(node.iter)
+        if not iter_visited:
+            self.visit(node.iter)
         for cond in node.ifs:
             self.visit(cond)
         self._comprehension_vars = (
@@ -469,9 +470,12 @@ class ExternalVariableCollector(NodeVisitor):
 
     def _visit_comprehension_expr(self, node):
         outer = getattr(self, "_comprehension_vars", set())
+        # The outermost iterable is evaluated by the function, before the
+        # comprehension has any variable of its own
+        self.visit(node.generators[0].iter)
         used_before = set(self.used)
-        for gen in node.generators:
-            self.visit(gen)
+        for i, gen in enumerate(node.generators):
+            self.visit_comprehension(gen, iter_visited=(i == 0))
         own = getattr(self, "_comprehension_vars", set()) - outer
         for field in ("elt", "key", "value"):
             if hasattr(node, field):
